@@ -54,6 +54,15 @@ CHECKS = {
             "history-free ideal term of its request across all recorded runs.",
             "Trusted: TLC, sha1, eko is_below_x for the header. The continuum of kinematics is represented by a universe of ~40 x values "
             "and 4 Q2 values chosen to collide.", "DESIGN.md 7/C14"),
+    "C06": ("model_checking",
+            "TLC exhaustive on the threshold lattice (count = digitize = position class; fixed schemes; massive flags) + TLC-emitted "
+            "(theory, matching scale, class) probes replayed in multi-point real runs + TLC trace validation of nf read from the output",
+            "TLC proves that the number of active flavours is the count of matching scales <= Q2 in three independent formulations for every "
+            "theory of the lattice (coincident scales included) and every position class of every scale, that fixed schemes use NfFF at "
+            "every Q2 and the massive flags per scheme; the real runner is driven with exactly representable scales and Q2 exactly at / one "
+            "ulp below / above them, all probes of a theory in one run, and nf is read from the output alone (active quark rows at LO, "
+            "(2,0,1,0) = -beta0(nf) (1,0,0,0)); TLC recomputes nf and beta0 for each recorded probe.",
+            "Trusted: TLC, numpy, math.nextafter. Non-monotone matching scales are outside the domain (eko rejects them).", "DESIGN.md 7/C06"),
 }
 
 PENDING = {}
